@@ -250,6 +250,27 @@ func c19Eval(w *Worker, c *c19Case, cli bool) {
 			bad("file-not-written", "generation reports success but the old content is still there")
 			return
 		}
+		// other pre-existing files: one of exactly the size of the new output with other content
+		// (a stale parser of the same length), a short one, and the output itself
+		if strings.HasPrefix(c.Origin, "whole:") || w.Out.Counters["succeeding_runs"]%16 == 0 {
+			stale := make([]byte, len(after))
+			for i, b := range after {
+				stale[i] = b ^ 1
+			}
+			for _, pre := range []struct {
+				what string
+				data []byte
+			}{{"a file of the same size with other content", stale}, {"a 10-byte file", []byte("0123456789")}, {"the same output", after}} {
+				os.WriteFile(path, pre.data, 0o644)
+				res2 := ygo.Generate(lang, text, path, ygo.Options{Fuel: textFuel, Unpack: gen.IsUnpack(c.Variant), Object: gen.IsObject(c.Variant)})
+				again, _ := os.ReadFile(path)
+				w.Count("regenerations_over_other_files", 1)
+				if !res2.OK2() || !bytes.Equal(again, after) {
+					bad("file-depends-on-previous-content", fmt.Sprintf("generating over %s does not give the output that generating over the %d-byte sentinel gives (%d bytes vs %d bytes, first difference: %s)", pre.what, len(sentinel), len(again), len(after), firstDiff(after, again)))
+					return
+				}
+			}
+		}
 	}
 	if cli {
 		c19CLI(w, c, failed, bad)
